@@ -3,6 +3,7 @@ package fractal
 import (
 	"context"
 	"fmt"
+	"io"
 	"sync"
 	"sync/atomic"
 	"time"
@@ -191,13 +192,21 @@ func (ls *LocalSuperior) RemoveTask(id uuid.UUID) {
 
 func (ls *LocalSuperior) submitCollectorMsg(ctx context.Context, resp *CollectorMsg) (err error) {
 	ls.taskCacheLock.Lock()
-	defer ls.taskCacheLock.Unlock()
 	v, ok := ls.taskCache.Get(resp.Msg.ID())
+	ls.taskCacheLock.Unlock()
 	if !ok {
 		// TODO: maybe return error
 		return nil
 	}
 	ch := v.(chan *CollectorMsg)
+	// The send must not hold taskCacheLock: a waiter that has stopped reading and
+	// calls RemoveTask would wait for the lock while this send waits for the waiter.
+	// RemoveTask closes ch, which releases a pending send with a panic.
+	defer func() {
+		if recover() != nil {
+			err = io.ErrClosedPipe
+		}
+	}()
 	select {
 	case <-ctx.Done():
 		err = ctx.Err()
